@@ -11,6 +11,7 @@ import (
 	"fmt"
 	"math/rand"
 	"reflect"
+	"sort"
 	"strings"
 	"unicode/utf8"
 	"unsafe"
@@ -465,9 +466,42 @@ func (c Conc) textWith(shape []any, x int) string {
 	return sb.String()
 }
 
+// forceName, when set, is returned by str for every text of exactly its length and class: drivers go through the
+// "structural" names (JSON member names, profile names, decimal key spellings, JSON literals) as claim *values*, so
+// that a decoder or dispatcher confusing a value with a name is met.
+var forceName = ""
+
+func structuralNames() []string {
+	seen := map[string]bool{}
+	out := []string{}
+	add := func(s string) {
+		if s != "" && !seen[s] {
+			seen[s] = true
+			out = append(out, s)
+		}
+	}
+	for _, p := range []string{"P1", "P2"} {
+		for _, n := range jsonNames[p] {
+			add(n)
+		}
+		for _, k := range cborKeys[p] {
+			add(fmt.Sprint(k))
+		}
+	}
+	for _, n := range []string{"PSA_IOT_PROFILE_1", "http://arm.com/psa/2.0.0", "null", "true", "{}", "[]", "measurement-value", "signer-id",
+		"measurement-type", "version", "measurement-description", "psa-no-sw-measurement", "psa-certification-reference", "eat_profile", "265"} {
+		add(n)
+	}
+	sort.Strings(out)
+	return out
+}
+
 func (c Conc) str(n, cls int) string {
 	if n == 0 {
 		return ""
+	}
+	if forceName != "" && len(forceName) == n && strClass(forceName) == cls {
+		return forceName
 	}
 	const ascii = "abcdefghijklmnopqrstuvwxyzABCDEFGHIJKLMNOPQRSTUVWXYZ0123456789:/.-_ &<>"
 	b := make([]byte, 0, n)
